@@ -118,6 +118,14 @@ func c13(args []string) error {
 			}
 		}
 		alpha := []int{align.NUCLEOTIDS, align.AMINOACIDS, align.UNKNOWN}[r.Intn(3)]
+		if kind == 0 && !many && r.Intn(3) == 0 {
+			// plainly nucleotide rows (N and gaps, no X): the command line detects the same alphabet, so that
+			// goalign dedup [--unaligned] [--n-as-gap] is comparable with the library call
+			alpha = align.NUCLEOTIDS
+			for k := range seqs {
+				seqs[k] = strings.NewReplacer("X", "N", "x", "n").Replace(seqs[k])
+			}
+		}
 		if kind == 2 {
 			alpha = align.NUCLEOTIDS
 		}
